@@ -3,6 +3,7 @@ package ech
 import (
 	"context"
 	"errors"
+	"net"
 )
 
 // C06: only a HelloRetryRequest re-arms ECH processing, under the retry rules.
@@ -28,6 +29,14 @@ type vC06State struct {
 }
 
 func vC06Setup() (vC06State, *vTransport, *Conn) {
+	tr := newVTransport(nil)
+	st, c := vC06SetupOn(tr, tr)
+	return st, tr, c
+}
+
+// vC06SetupOn runs the first (accepted) hello over the given connection, whose
+// embedded vTransport is tr.
+func vC06SetupOn(conn net.Conn, tr *vTransport) (vC06State, *Conn) {
 	var st vC06State
 	st.name = []byte("pub.example")
 	st.k = vMakeKey(0, vByte(), [][2]uint16{{1, 1}, {1, 3}}, st.name)
@@ -38,15 +47,15 @@ func vC06Setup() (vC06State, *vTransport, *Conn) {
 	st.inner = vHello{version: 0x0303, random: vBytes(32), suites: []byte{0x13, 0x02}, comp: []byte{0},
 		exts: []vExt{vSNI(st.innerSN), vECHInner(), vALPN([][]byte{st.proto}), vVersions(0x0304)}}
 	st.first = vSeal(st.k, 1, 1, outer, 3, vEncodeInner(st.inner, 0))
-	tr := newVTransport(st.first.outer.record())
-	c, err := NewConn(context.Background(), tr, WithKeys([]Key{st.k.key()}))
+	tr.in = st.first.outer.record()
+	c, err := NewConn(context.Background(), conn, WithKeys([]Key{st.k.key()}))
 	vAssert(err == nil && c.ECHAccepted(), "first hello accepted")
 	want := st.inner
 	want.sid = outer.sid
 	wantMsg := vHandshake(want.body())
 	got, _ := vReadAll(c, 400, 5+len(wantMsg))
 	vAssert(len(got) == 5+len(wantMsg) && vBytesEq(got[5:], wantMsg), "first inner hello delivered")
-	return st, tr, c
+	return st, c
 }
 
 // vSecondHello builds the client's second ClientHello in the given variant and
@@ -62,6 +71,7 @@ func vSecondHello(st vC06State, variant int) (rec []byte, wantMsg []byte, class 
 		other[vInt(0, len(other)-1)] ^= d
 		outer2.exts[0] = vSNI(other)
 	}
+	compressed := false
 	inner2 := st.inner
 	inner2.exts = []vExt{vSNI(st.innerSN), vECHInner(), vALPN([][]byte{st.proto}), vVersions(0x0304), {51, vBytes(1)}}
 	switch variant {
@@ -74,19 +84,43 @@ func vSecondHello(st vC06State, variant int) (rec []byte, wantMsg []byte, class 
 		vAssume(pr[0] != st.proto[0] || pr[1] != st.proto[1])
 		inner2.exts[2] = vALPN([][]byte{pr})
 	}
+	encoded2pad := []byte{}
+	switch variant {
+	case 0: // the usual shape: key_share compressed through ech_outer_extensions; its value changed since the first hello
+		if vBool() {
+			inner2.exts[4] = vOuterExtensions([]uint16{51})
+			compressed = true
+		}
+	case 10: // the outer hello no longer offers TLS 1.3
+		outer2.exts[1] = vVersions(0x0303)
+	case 11: // ech_outer_extensions in the outer hello
+		outer2.exts = append(outer2.exts, vOuterExtensions([]uint16{51}))
+	case 12: // the inner hello lost its inner-type ECH extension
+		inner2.exts = []vExt{inner2.exts[0], inner2.exts[2], inner2.exts[3], inner2.exts[4]}
+	case 13: // non-zero padding
+		encoded2pad = vBytes(2)
+		vAssume(encoded2pad[0] != 0 || encoded2pad[1] != 0)
+	case 14: // a repeated outer-extension reference
+		inner2.exts[4] = vOuterExtensions([]uint16{51, 51})
+	}
 	enc2 := []byte{}
 	h := st.first.sender
 	if variant == 5 { // sealed under a fresh context (sequence number 0 of another context)
 		info := vCat([]byte("tls ech\x00"), st.k.config)
 		_, h = vHpkeSetupSender(st.k.priv, st.k.pub, 1, 1, info)
 	}
-	s2 := vSealWith(h, enc2, st.k.id, 1, 1, outer2, 3, vEncodeInner(inner2, 0))
+	s2 := vSealWith(h, enc2, st.k.id, 1, 1, outer2, 3, vCat(vEncodeInner(inner2, 0), encoded2pad))
 	o := s2.outer
 	exts := make([]vExt, len(o.exts))
 	copy(exts, o.exts)
 	o.exts = exts
 	want := inner2
 	want.sid = outer2.sid
+	if compressed {
+		wexts := append([]vExt{}, inner2.exts...)
+		wexts[4] = outer2.exts[2] // the second outer hello's key_share, not the first one's
+		want.exts = wexts
+	}
 	wantMsg = vHandshake(want.body())
 	switch variant {
 	case 0:
@@ -113,14 +147,14 @@ func vSecondHello(st vC06State, variant int) (rec []byte, wantMsg []byte, class 
 		pl[vInt(0, len(pl)-1)] ^= d
 		o.exts[3] = vECHOuter(1, 1, st.k.id, enc2, pl)
 		wantMsg, class, desc = nil, ErrDecryptError, 51
-	case 7, 8, 9:
+	case 7, 8, 9, 10, 11, 12, 13, 14:
 		wantMsg, class, desc = nil, ErrIllegalParameter, 47
 	}
 	return o.record(), wantMsg, class, desc
 }
 
 // verifC06History: after an accepted first hello, a symbolic history of client
-// records (second hello in 10 variants, change_cipher_spec, application data,
+// records (second hello in 15 variants, change_cipher_spec, application data,
 // other handshake) and backend records (ServerHello, HelloRetryRequest,
 // change_cipher_spec, application data, other handshake), checked step by step
 // against a reference monitor of the statement.
@@ -189,7 +223,7 @@ func verifC06History() {
 			isHello = true
 			variant := 0 // a further hello (third of the connection) is an honest one: it must still not be processed
 			if hellos == 1 {
-				variant = vInt(0, 9)
+				variant = vInt(0, 14)
 			}
 			rec, wantMsg, class, desc = vSecondHello(st, variant)
 			if sharedSeals > 0 {
@@ -241,4 +275,36 @@ func verifC06History() {
 		}
 	}
 	vReach("done")
+}
+
+// verifC06Concurrent: the order production sees - the relay's Read is already
+// blocked in the transport when the backend's HelloRetryRequest is written;
+// the retried hello that arrives afterwards is still processed.  Every
+// schedule of the two goroutines at synchronisation points is explored.
+func verifC06Concurrent() {
+	tr := newVBlockingTransport()
+	st, c := vC06SetupOn(tr, &tr.vTransport)
+	vSchedForks(true)
+	type res struct {
+		b   []byte
+		err error
+	}
+	done := make(chan res, 1)
+	go func() {
+		buf := make([]byte, 600)
+		n, err := c.Read(buf)
+		done <- res{append([]byte{}, buf[:n]...), err}
+	}()
+	if vBool() {
+		vYield() // the reader usually blocks first
+	}
+	hrr := vServerHello(vHRRRandom, st.first.outer.sid)
+	n, err := c.Write(hrr)
+	vAssert(err == nil && n == len(hrr), "HelloRetryRequest forwarded")
+	rec, wantMsg, _, _ := vSecondHello(st, 0)
+	tr.deliver(rec)
+	r := <-done
+	vAssert(r.err == nil, "retried hello accepted by a Read that was already blocked when the HelloRetryRequest passed")
+	vAssert(len(r.b) == 5+len(wantMsg) && vBytesEq(r.b[5:], wantMsg), "retried hello replaced by its reconstructed inner hello (reader blocked first)")
+	vReach("concurrent-retry")
 }
